@@ -145,6 +145,7 @@ package transport
 //@   requires [C05] len(pkg) >= 4
 //@   allocates
 //@   site invoke$1#0 assert [C05] len(pkg) >= 4
+//@   site WithTimeout#0 assert [C10] cfg.HandleTimeout != 0 && $1 == cfg.HandleTimeout
 //@   safety [C05]
 //
 //@ func (*udpHandler).getConnContext
@@ -197,3 +198,12 @@ package transport
 //@   modifies config.QueueLen
 //@   allocates
 //@   ensures [C08] result != nil && fresh(result) && result.protocol == protocol && result.conn != nil && fresh(result.conn) && result.conn.client == result
+
+// Listen (C10: every accepted request is handled): the worker pool is built with MaxInvoke workers and a queue of
+// QueueCap entries, in that order (argsonly: only the arguments of the call are checked; Listen itself is trusted).
+//@ func (*tcpHandler).Listen
+//@   trusted
+//@   argsonly
+//@   noframe
+//@   allocates
+//@   site NewPool#0 assert [C10] $0 == cfg.MaxInvoke && $1 == cfg.QueueCap
